@@ -288,6 +288,9 @@ func (c13) Run(t *testing.T, scenario any, job *Job, res *Result) {
 		return
 	}
 	if !sessionSucceeded(res, out.S, "") {
+		if res.Violation == nil {
+			return // inconclusive (harness trouble)
+		}
 		res.Violation.Signature += tag
 		setTape(&sc.Sync.Tr, out.S)
 		return
@@ -413,6 +416,9 @@ func (c10) Run(t *testing.T, scenario any, job *Job, res *Result) {
 		return
 	}
 	if !sessionSucceeded(res, s, "") {
+		if res.Violation == nil {
+			return // inconclusive (harness trouble)
+		}
 		res.Violation.Signature += tag
 		setTape(&sc.Sync.Tr, s)
 		return
@@ -556,6 +562,9 @@ func (c14) Run(t *testing.T, scenario any, job *Job, res *Result) {
 		res.AddSession(out.S)
 		tag := ":" + arr
 		if !sessionSucceeded(res, out.S, "["+arr+"] opts="+strings.Join(sc.Sync.Opts, " ")+": ") {
+			if res.Violation == nil {
+				return // inconclusive (harness trouble)
+			}
 			res.Violation.Kind = "desync-" + res.Violation.Kind
 			res.Violation.Signature = optClass(o) + tag + ":" + res.Violation.Kind
 			sc.Arrs = []string{arr}
